@@ -163,8 +163,20 @@ def chain_room(seed):
         target = np.array([rnd.uniform(-0.3, 0.3), rnd.uniform(-0.3, 0.3), rnd.uniform(0.0, 0.5)])
         bs[i] = (look_at(pos, target, 0.0), pos)
     cf, vis = [], []
+    # the order in which the pairs are visited: round the ring, or an open chain walked back and forth (a, b), (b, c),
+    # (a, b), (b, c) ..., or any order
+    order = rnd.choice(('ring', 'ring', 'back-and-forth', 'shuffled'))
+    pairs = [(ids[k % n_bs], ids[(k + 1) % n_bs]) for k in range(n_cf)]
+    if order == 'back-and-forth':
+        links = [(ids[k], ids[k + 1]) for k in range(n_bs - 1)]
+        if rnd.random() < 0.5:
+            links = [(b_, a_) for (a_, b_) in links]
+        pairs = links * 2
+        n_cf = len(pairs)
+    elif order == 'shuffled':
+        rnd.shuffle(pairs)
     for k in range(n_cf):
-        a, b = ids[k % n_bs], ids[(k + 1) % n_bs]
+        a, b = pairs[k]
         mid = (bs[a][1] + bs[b][1]) / 2
         while True:
             pos = np.array([rnd.uniform(-1, 1), rnd.uniform(-1, 1), rnd.uniform(0.0, 1.0)])
@@ -175,4 +187,4 @@ def chain_room(seed):
         R = rot_axis((0, 0, 1), yaw) @ rot_axis((math.cos(ta), math.sin(ta), 0), rnd.uniform(0, 0.15))
         cf.append((R, pos))
         vis.append([a, b])
-    return {'bs': bs, 'cf': cf, 'ids': ids, 'vis': vis}
+    return {'bs': bs, 'cf': cf, 'ids': ids, 'vis': vis, 'order': order}
